@@ -62,8 +62,15 @@ type vfC05CloseEv struct {
 	Addr string // close the connection established over this address (if any)
 }
 
+// vfC05Blocker is a DialPeer to ANOTHER peer whose single TCP dial holds a file-descriptor token of the
+// (swarm-wide) limiter from Start for Hold
+type vfC05Blocker struct {
+	Start, Hold time.Duration
+}
+
 type vfC05Scenario struct {
 	Seed     int64
+	Blockers []vfC05Blocker
 	Addrs    []*vfC05Addr
 	Callers  []vfC05Caller
 	Closes   []vfC05CloseEv
@@ -84,6 +91,7 @@ type vfC05Run struct {
 	nconn   int
 	local   peer.ID
 	remote  peer.ID
+	blocker map[string]time.Duration // address bytes of another peer -> how long its dial holds
 }
 
 func (r *vfC05Run) now() int64 { return int64(time.Since(r.t0) / time.Millisecond) }
@@ -105,6 +113,18 @@ func (t *vfC05Tpt) Dial(ctx context.Context, raddr ma.Multiaddr, p peer.ID) (tra
 	r := t.r
 	r.mu.Lock()
 	a := r.byAddr[string(raddr.Bytes())]
+	if hold, ok := r.blocker[string(raddr.Bytes())]; ok && a == nil && p != r.remote {
+		r.mu.Unlock()
+		r.tr.Emit("ext_start", "t", r.now())
+		tm := time.NewTimer(hold)
+		defer tm.Stop()
+		select {
+		case <-tm.C:
+		case <-ctx.Done():
+		}
+		r.tr.Emit("ext_end", "t", r.now())
+		return nil, errors.New("verif: blocker dial over")
+	}
 	if a == nil {
 		r.mu.Unlock()
 		r.tr.Emit("tdial_unknown", "addr", raddr.String(), "t", r.now())
@@ -246,6 +266,38 @@ func vfC05Gen(seed int64, idx int) *vfC05Scenario {
 		}
 		return sc
 	}
+	if m := idx % 40; m >= 4 && m <= 7 {
+		// template "fdstarve": dials to other peers hold every file-descriptor token; a job of this peer takes the
+		// per-peer token(s) and parks on the FD wait list; every caller gives up (the worker exits, the parked jobs
+		// stay behind, cancelled); a NEW dial of the peer queues behind the stale tokens; then an FD token frees.
+		// The new dial must get its attempt (promptly), within both caps.
+		sc.Template = "fdstarve"
+		sc.FDLimit, sc.PerPeer = 1, 1
+		if m >= 6 {
+			sc.PerPeer = 2
+		}
+		sc.Blockers = []vfC05Blocker{{Start: 0, Hold: ms(1800 + rnd.Intn(600))}}
+		kind := []string{"ok", "fail", "hang"}[rnd.Intn(3)]
+		sc.Addrs = []*vfC05Addr{mk("t1", "/ip4/1.2.3.4/tcp/4001", false, true, vfC05Out{kind, ms(300 + rnd.Intn(300))})}
+		if m >= 6 {
+			sc.Addrs = append(sc.Addrs, mk("t2", "/ip4/1.2.3.5/tcp/4001", false, true, vfC05Out{"fail", ms(300 + rnd.Intn(300))}))
+		}
+		cA := vfC05Caller{Name: "cA", Start: ms(50 + rnd.Intn(100))}
+		if m%2 == 0 {
+			cA.Cancel = ms(600 + rnd.Intn(150))
+		} else {
+			cA.Timeout = ms(500 + rnd.Intn(150))
+		}
+		cB := vfC05Caller{Name: "cB", Start: ms(800 + rnd.Intn(300))}
+		if kind == "hang" {
+			cB.Timeout = ms(6000)
+		}
+		sc.Callers = []vfC05Caller{cA, cB}
+		if rnd.Intn(2) == 0 {
+			sc.Callers = append(sc.Callers, vfC05Caller{Name: "cC", Start: ms(900 + rnd.Intn(2000)), Timeout: ms(4000 + rnd.Intn(3000))})
+		}
+		return sc
+	}
 	sc.Template = "random"
 	kinds := []string{"ok", "fail", "fail", "hang"}
 	na := 1 + rnd.Intn(4)
@@ -325,7 +377,8 @@ func vfC05Execute(t *testing.T, sc *vfC05Scenario, tr *vfh.Trace) {
 	}
 	sw.limiter = newDialLimiterWithParams(sw.dialAddr, sc.FDLimit, sc.PerPeer)
 	r := &vfC05Run{sc: sc, tr: tr, t0: time.Now(), byAddr: map[string]*vfC05Addr{}, attempt: map[string]int{},
-		conns: map[string]*vfStubConn{}, connID: map[*vfStubConn]string{}, local: local, remote: remote}
+		conns: map[string]*vfStubConn{}, connID: map[*vfStubConn]string{}, local: local, remote: remote,
+		blocker: map[string]time.Duration{}}
 	tcp := &vfC05Tpt{r: r, protos: []int{ma.P_TCP}, match: func(a ma.Multiaddr) bool { return mafmt.TCP.Matches(a) }}
 	has := func(a ma.Multiaddr, code int) bool {
 		_, err := a.ValueForProtocol(code)
@@ -382,6 +435,18 @@ func vfC05Execute(t *testing.T, sc *vfC05Scenario, tr *vfh.Trace) {
 	ps.AddAddrs(remote, all, peerstore.PermanentAddrTTL)
 	tr.Emit("config", "perpeer", sc.PerPeer, "fdlimit", sc.FDLimit, "template", sc.Template)
 	var wg sync.WaitGroup
+	for i, b := range sc.Blockers {
+		bp := peer.ID(fmt.Sprintf("vf-blocker-c05-%d", i))
+		ba := ma.StringCast(fmt.Sprintf("/ip4/5.5.5.%d/tcp/4001", i+1))
+		r.blocker[string(ba.Bytes())] = b.Hold
+		ps.AddAddrs(bp, []ma.Multiaddr{ba}, peerstore.PermanentAddrTTL)
+		wg.Add(1)
+		go func(b vfC05Blocker) {
+			defer wg.Done()
+			time.Sleep(b.Start)
+			sw.DialPeer(context.Background(), bp) // fails when its scripted dial is over
+		}(b)
+	}
 	for _, c := range sc.Callers {
 		wg.Add(1)
 		go func(c vfC05Caller) {
